@@ -24,5 +24,19 @@ LimitRules ==
 LimitEdbs ==
   { {A("n", <<N(0)>>)}, {A("n", <<N(0)>>), A("n", <<N(10)>>)}, {A("n", <<N(1)>>), A("l", <<List(<<>>)>>)},
     {A("l", <<List(<<N(2), N(3)>>)>>), A("l", <<List(<<>>)>>)}, {A("m", <<N(3)>>)} }
+\* bulk family: small programs over a base-fact set far larger than any bound the limit justifies; the number of
+\* created facts must not grow with it (copy, filter, join, two-step rules over b(1..BulkN))
+BulkRules ==
+  { R(A("c", <<X>>), <<<<"pos", A("b", <<X>>)>>>>),
+    R(A("c", <<X>>), <<<<"pos", A("b", <<X>>)>>, <<"ne", X, N(4)>>>>),
+    R(A("c", <<X>>), <<<<"ne", X, N(4)>>, <<"pos", A("b", <<X>>)>>>>),
+    R(A("d", <<X>>), <<<<"pos", A("c", <<X>>)>>>>),
+    R(A("d", <<X>>), <<<<"pos", A("b", <<X>>)>>, <<"pos", A("c", <<X>>)>>>>),
+    R(A("c", <<Y>>), <<<<"pos", A("b", <<X>>)>>, <<"eq", Y, Ap("fn:plus", <<X, N(1000)>>)>>>>),
+    R(A("e2", <<X, Y>>), <<<<"pos", A("b", <<X>>)>>, <<"pos", A("s", <<Y>>)>>>>),
+    [h |-> A("k", <<Var("V")>>), b |-> <<<<"pos", A("b", <<X>>)>>>>, t |-> <<"let", <<<<"V", Ap("fn:plus", <<X, N(1000)>>)>>>>>>],
+    [h |-> A("cnt", <<Var("C")>>), b |-> <<<<"pos", A("b", <<X>>)>>>>, t |-> <<"do", <<>>, <<<<"C", "fn:count", <<>>>>>>>>] }
+BulkN == 120
+BulkEdbs == { {A("b", <<N(i)>>) : i \in 1..BulkN} \cup {A("s", <<N(1)>>), A("s", <<N(2)>>)} }
 KeepAll(r) == TRUE
 =============================================================================
